@@ -1831,7 +1831,8 @@ class HDKey(Key):
                     script_type = kf['script_types'][0]
                 if len(kf['witness_types']) == 1 and not witness_type:
                     witness_type = kf['witness_types'][0]
-                if len(kf['multisig']) == 1:
+                if len(kf['multisig']) == 1 and kf['format'] in ['hdkey_private', 'hdkey_public']:
+                    # Only extended keys encode the multisig flag, for other formats use the flag supplied
                     multisig = kf['multisig'][0]
                 network = Network(check_network_and_key(import_key, network, kf["networks"]))
                 if kf['format'] in ['hdkey_private', 'hdkey_public']:
